@@ -348,6 +348,9 @@ func (p *provider) createAllSingletonsWithContext(ctx context.Context) error {
 		}
 
 		descriptor, ok := node.Provider.(*Descriptor)
+		if expanded, isExpanded := node.Provider.(groupExpandedProvider); isExpanded {
+			descriptor, ok = expanded.Descriptor, true
+		}
 		if !ok {
 			return &ValidationError{
 				ServiceType: nil,
